@@ -50,7 +50,7 @@ def main():
             "add_only": True,
         },
         "engines": [
-            {"name": "pure", "path": "/verif/harness/vcore", "serves_properties": ["C09","C10","C15","C16","C18","C19"], "kind_free_text": "proptest TestRunner / bounded-exhaustive enumeration over pure functions with explicit oracles"},
+            {"name": "pure", "path": "/verif/harness/c09 c10 c15 c16 c18 c19 (+ vgen, vcommon)", "serves_properties": ["C09","C10","C15","C16","C18","C19"], "kind_free_text": "proptest TestRunner / bounded-exhaustive enumeration over pure functions with explicit oracles"},
         ],
         "checks": checks,
         "not_applicable": na,
